@@ -189,7 +189,7 @@ pub fn judge(fen: &str, history: &[String], depth: u8, cap0: u64, cap1: u64) -> 
         history: history.to_vec(),
         limits: Limits::default(),
         max_depth: Some(depth),
-        cut: Cut::ClockNever,
+        cut: Cut::ClockNever, elapsed_ms: None,
     };
     let out = searchrun::run(&board, &case, &Opts { clear_cache: true, observe: false, neutral: true });
     let mut r1 = Ref::new(&earlier, cap1);
